@@ -117,6 +117,11 @@ def cases(tier, rng):
         lim = lims[k % 3]
         pps = [3, 5][k % 2]
         yield dict(freq=f, cond=c, mapping=m, dom=d, stretching=s, buf=b, coe=coe, limits=lim, pps=pps, vector=None, seasurface=None, center=(k % 5) * 37.0 - 50.0)
+    # very low frequencies with a very resistive buffer medium (air), also as exactly zero conductivity: the wavelength is astronomically
+    # large, the required buffer is the cap max_buffer
+    for f, c, b in itertools.product([2e-3, -1e-2], [[1.0, 1.0, 1e-8], [0.5, 1e-9, 1e-9]], [dict(max_buffer=20000.0), dict(lambda_factor=0.5, max_buffer=30000.0)]):
+        yield dict(freq=f, cond=c, mapping='Conductivity', dom=('domain', (-500.0, 800.0)), stretching=(1.0, 1.5), buf=b, coe=True, limits=(10.0, 200.0), pps=3,
+                   vector=None, seasurface=None, center=0.0)
     # vectors and sea surfaces
     vecs = [np.array([-100.0, -40.0, 0.0, 30.0, 90.0, 200.0]), np.linspace(-500, 500, 11), np.array([0.0, 50.0, 100.0])]
     for f, c, v, b, dd in itertools.product(freqs[:2], conds, vecs, bufs[:3], [None, (-250.0, 260.0), (-30.0, 95.0)]):
